@@ -299,6 +299,7 @@ func runModels(prop, tier, replay string) int {
 	stacks := EnumerateStackDefs("K", minStack, 3)
 	r.Extra["container_stack_definitions"] = len(stacks)
 	defs = append(defs, stacks...)
+	defs = append(defs, DeepRefDefs("R")...)
 	r.Extra["definitions"] = len(defs)
 	r.Extra["choice_points"] = st.Points
 	r.Extra["bound_completed"] = fmt.Sprintf("k<=%d keywords per leaf, context chains of length <=%d, one deviation per instance", k, depth)
